@@ -1537,6 +1537,7 @@ class PCE500Emulator:
             "irq_counts": dict(self.irq_counts),
             "last_irq": dict(self.last_irq),
             "irq_bit_watch": self.irq_bit_watch,
+            "key_irq_latched": bool(getattr(self, "_key_irq_latched", False)),
         }
 
         kb_metrics = {
@@ -1752,6 +1753,7 @@ class PCE500Emulator:
         self._irq_source = IRQSource[source_name] if source_name else None
         self._interrupt_stack = list(interrupts.get("stack", []))
         self._next_interrupt_id = int(interrupts.get("next_id", 1))
+        self._key_irq_latched = bool(interrupts.get("key_irq_latched", False))
         irq_counts = interrupts.get("irq_counts")
         if isinstance(irq_counts, dict):
             self.irq_counts = {key: int(val) for key, val in irq_counts.items()}
